@@ -477,6 +477,9 @@ def evaluate__max_min_functions(self: XPathFunction, context: ta.ContextType = N
     def max_or_min() -> ta.OneOrEmpty[AtomicType]:
         if not values:
             return []
+        elif any(isinstance(x, bool) for x in values):
+            if not all(isinstance(x, bool) for x in values):
+                raise self.error('FORG0006', "cannot compare xs:boolean with other types")
         elif all(isinstance(x, str) for x in values):
             if to_any_uri:
                 return AnyURI(aggregate_func(
@@ -588,11 +591,13 @@ def select__distinct_values(self: XPathFunction, context: ta.ContextType = None)
                         yield value
                         nan = True
                 elif all(not math.isclose(value, x, rel_tol=1E-18, abs_tol=0)
-                         for x in results if isinstance(x, (int, Decimal, float))):
+                         for x in results
+                         if isinstance(x, (int, Decimal, float)) and not isinstance(x, bool)):
                     yield value
                     results.append(value)
 
-            elif value not in results:
+            elif all(value != x or isinstance(value, bool) is not isinstance(x, bool)
+                     for x in results):
                 yield value
                 results.append(value)
 
@@ -643,7 +648,9 @@ def select__index_of(self: XPathFunction, context: ta.ContextType = None) -> Ite
 
     with CollationManager(collation, self) as manager:
         for pos, result in enumerate(self[0].atomization(context), start=1):
-            if manager.eq(result, value):
+            if isinstance(result, bool) is not isinstance(value, bool):
+                continue  # xs:boolean is comparable only with xs:boolean
+            elif manager.eq(result, value):
                 yield pos
 
 
